@@ -391,7 +391,7 @@ func RunFree(t *testing.T, cfg FreeCfg) (ff *Free) {
 	}()
 	synctest.Test(t, func(t *testing.T) {
 		f.conn = NewSConn()
-		if cfg.Fault == "halfclose" {
+		if cfg.Fault == "halfclose" || cfg.Fault == "wfail" {
 			f.conn.MaxWrite = func(n int) int { return min(n, 9) }
 		} else if cfg.PartialWr {
 			var pm sync.Mutex
@@ -472,7 +472,7 @@ func (f *Free) settle() {
 // peerLoop is the scripted peer, run by the test goroutine.
 func (f *Free) peerLoop(late chan struct{}) {
 	cfg := f.cfg
-	if cfg.Fault == "halfclose" {
+	if cfg.Fault == "halfclose" || cfg.Fault == "wfail" {
 		f.halfClose(late)
 		return
 	}
@@ -559,13 +559,21 @@ func (f *Free) halfClose(late chan struct{}) {
 	f.mu.Lock()
 	f.failed = true
 	f.mu.Unlock()
-	f.conn.EOF()
+	if cfg.Fault == "wfail" {
+		// only the client's writes fail (now and later); nothing more arrives, but the read side is not ended
+		f.conn.Gone()
+	} else {
+		f.conn.EOF()
+	}
 	if cfg.LateCalls > 0 {
 		close(late)
 	}
 	synctest.Wait()
 	if !f.allReturned() {
 		f.Hang = "quiescent after the peer ended its sending direction and stopped reading, with calls that have not returned"
+		if cfg.Fault == "wfail" {
+			f.Hang = "quiescent after the client's writes started to fail (the peer sends nothing more), with calls that have not returned"
+		}
 	}
 }
 
